@@ -307,7 +307,8 @@ def r3_regex(ctx):
         raise AnalysisError('C15.R3: utils.combine_regexes missing')
     ev = Evaluator(corpus, depth=3)
     r = ev.run(comb)
-    okc = strip_sites(r) == ('call', ('attr', ('const', '|'), 'join'), (('param', 'regex_list'),), ())
+    cp = [a.arg for a in comb.node.args.posonlyargs + comb.node.args.args]
+    okc = bool(cp) and strip_sites(r) == ('call', ('attr', ('const', '|'), 'join'), (('param', cp[0]),), ())
     if not okc and r[0] == 'call' and r[1] == ('attr', ('const', '|'), 'join') and len(r[2]) == 1 and r[2][0][0] == 'seq*':
         el = r[2][0][1]
         okc = el[0] == 'fstr' and [p for p in el[1] if p[0] == 'const'] == [('const', '(?:'), ('const', ')')]
@@ -323,10 +324,12 @@ def r3_regex(ctx):
     if mn is not None:
         ev = Evaluator(corpus, depth=2)
         r = ev.run(mn)
+        mp = [a.arg for a in mn.node.args.posonlyargs + mn.node.args.args]
+        P = ('param', mp[0]) if mp else None
         okm = all(
             a == ('const', None)
-            or (a[0] == 'call' and a[1][0] == 'func' and a[1][1].endswith('combine_regexes') and a[2] == (('param', 'value'),))
-            or strip_sites(a) == ('call', ('attr', ('const', '|'), 'join'), (('param', 'value'),), ())
+            or (a[0] == 'call' and a[1][0] == 'func' and a[1][1].endswith('combine_regexes') and a[2] == (P,))
+            or strip_sites(a) == ('call', ('attr', ('const', '|'), 'join'), (P,), ())
             for a in alts(r)
         ) and len(alts(r)) == 2
         ctx.check(okm, 'C15.R3', f'{func_label(mn)}|cli-combiner-delegates', loc(mn, mn.node), '_combine_optional_regexes is combine_regexes(value) or None', f'_combine_optional_regexes changed: {show(r, limit=140)}')
